@@ -41,7 +41,7 @@ func (fl FocalLength) MarshalText() (text []byte, err error) {
 func (fl *FocalLength) UnmarshalText(text []byte) (err error) {
 	var f float64
 	if len(text) > 0 {
-		if text[len(text)-1] == sufFocalLength[1] && text[len(text)-2] == sufFocalLength[0] {
+		if len(text) >= 2 && text[len(text)-1] == sufFocalLength[1] && text[len(text)-2] == sufFocalLength[0] {
 			text = text[:len(text)-2]
 		}
 		f, err = strconv.ParseFloat(string(text), 32)
